@@ -18,6 +18,7 @@ mod fam_liq;
 mod fam_math;
 mod fam_position;
 mod fam_sdk;
+mod fam_setup;
 mod hist;
 mod hist_oracle;
 mod rng;
@@ -96,6 +97,7 @@ pub fn families() -> Vec<Box<dyn Family>> {
     fam_admin::register(&mut v);
     fam_init::register(&mut v);
     fam_bundle::register(&mut v);
+    fam_setup::register(&mut v);
     v
 }
 
